@@ -14,7 +14,7 @@ for prop, spec in sorted(registry.PROPS.items()):
             if k.get("prepare"):
                 k["prepare"](repo, ROOT)
             cwd = k["cwd"](repo, ROOT) if callable(k.get("cwd")) else (k.get("cwd") or repo)
-            target = os.path.join(ROOT, ".cache", "kani-target-" + k.get("target_tag", "repo"))
+            target = kani_unit._target_dir(ROOT, k, cwd)
             prefix = k.get("module", "")
             h = (prefix + "::" if prefix else "") + k["quick"][0]
             cmd = kani_unit._cargo_kani_cmd(k, target, [h], extra=["--only-codegen"])
